@@ -243,22 +243,21 @@ def aliasExport (st : State) (item : Nat) (name : Str) (op : InstOp) : Except Di
       | some (g, n) => .ok ({ st with graph := g }, some n)
       | none => .ok (st, none)   -- unreachable: `expect("alias should be created")`
 
+/-- `.ok_or_else(|| Error::MissingInstanceExport { name, .. })` on the result of `alias_export` -/
+def orMissingExport (name : Str) : Except Diag (State × Option Nat) → Except Diag (State × Nat)
+  | .error e => .error e
+  | .ok (_, none) => .error (.missingExport name)
+  | .ok (st, some n) => .ok (st, n)
+
 /-- `AstResolver::postfix_expr` -/
 def postfixExpr (st : State) (item : Nat) (named : Bool) (id : Str) : Except Diag (State × Nat) :=
-  if named then
-    match aliasExport st item id .access with
-    | .error e => .error e
-    | .ok (_, none) => .error (.missingExport id)
-    | .ok (st, some n) => .ok (st, n)
+  if named then orMissingExport id (aliasExport st item id .access)
   else
     match (st.graph.kindOf item).instExports with
     | none => .error (.notInstance .access)
     | some es =>
       let name := (findMatchingInterfaceName id es.names).getD id
-      match aliasExport st item name .access with
-      | .error e => .error e
-      | .ok (_, none) => .error (.missingExport name)
-      | .ok (st, some n) => .ok (st, n)
+      orMissingExport name (aliasExport st item name .access)
 
 /-- `AstResolver::inferred_instantiation_arg` -/
 def inferredInstantiationArg (st : State) (ident : Str) (imports : List Str) : Except Diag (Str × Nat) :=
@@ -285,6 +284,18 @@ def inferredInstantiationArg (st : State) (ident : Str) (imports : List Str) : E
         | some name => .ok (name, item)
         | none => .ok (ident, item)
 
+/-- the `for name in expected` loop of `spread_instantiation_arg` -/
+def spreadLoop (item : Nat) (st : State) (arguments : List (Str × Nat)) (spread : Bool) :
+    List Str → Except Diag (State × List (Str × Nat) × Bool)
+  | [] => .ok (st, arguments, spread)
+  | name :: rest =>
+    if alHas name arguments then spreadLoop item st arguments spread rest
+    else
+      match aliasExport st item name .spread with
+      | .error e => .error e
+      | .ok (st, some aliased) => spreadLoop item st (arguments ++ [(name, aliased)]) true rest
+      | .ok (st, none) => spreadLoop item st arguments spread rest
+
 /-- `AstResolver::spread_instantiation_arg`; `expected` = the import names in world order -/
 def spreadInstantiationArg (st : State) (id : Str) (expected : List Str) (arguments : List (Str × Nat)) :
     Except Diag (State × List (Str × Nat)) :=
@@ -293,17 +304,7 @@ def spreadInstantiationArg (st : State) (id : Str) (expected : List Str) (argume
   | .ok item =>
     if !(st.graph.kindOf item).isInstance then .error (.notInstance .spread)
     else
-      let rec loop (st : State) (arguments : List (Str × Nat)) (spread : Bool) :
-          List Str → Except Diag (State × List (Str × Nat) × Bool)
-        | [] => .ok (st, arguments, spread)
-        | name :: rest =>
-          if alHas name arguments then loop st arguments spread rest
-          else
-            match aliasExport st item name .spread with
-            | .error e => .error e
-            | .ok (st, some aliased) => loop st (arguments ++ [(name, aliased)]) true rest
-            | .ok (st, none) => loop st arguments spread rest
-      match loop st arguments false expected with
+      match spreadLoop item st arguments false expected with
       | .error e => .error e
       | .ok (st, arguments, spread) =>
         if !spread then .error .spreadNoMatch else .ok (st, arguments)
@@ -462,6 +463,20 @@ def exportItem (st : State) (item : Nat) (name : Str) : Except Diag State :=
   | .error e => .error e
   | .ok g => .ok { st with graph := g }
 
+/-- the `for name in exports` loop of the spread arm of `export_statement` -/
+def spreadExportLoop (item : Nat) (st : State) (exported : Bool) : List Str → Except Diag (State × Bool)
+  | [] => .ok (st, exported)
+  | name :: rest =>
+    if (st.graph.getExport name).isSome then spreadExportLoop item st exported rest
+    else
+      match aliasExport st item name .spread with
+      | .error e => .error e
+      | .ok (_, none) => .error (.missingExport name)   -- `expect("expected a matching export name")`; unreachable
+      | .ok (st, some aliased) =>
+        match exportItem st aliased name with
+        | .error e => .error e
+        | .ok st => spreadExportLoop item st true rest
+
 /-- `AstResolver::export_statement` -/
 def exportStatement (self : Str) (st : State) (e : Expr) (opt : ExportOpt) : Except Diag State :=
   match expr self st e with
@@ -477,19 +492,7 @@ def exportStatement (self : Str) (st : State) (e : Expr) (opt : ExportOpt) : Exc
       match (st.graph.kindOf item).instExports with
       | none => .error (.notInstance .spread)
       | some es =>
-        let rec loop (st : State) (exported : Bool) : List Str → Except Diag (State × Bool)
-          | [] => .ok (st, exported)
-          | name :: rest =>
-            if (st.graph.getExport name).isSome then loop st exported rest
-            else
-              match aliasExport st item name .spread with
-              | .error e => .error e
-              | .ok (_, none) => .error (.missingExport name)   -- `expect("expected a matching export name")`; unreachable
-              | .ok (st, some aliased) =>
-                match exportItem st aliased name with
-                | .error e => .error e
-                | .ok st => loop st true rest
-        match loop st false es.names with
+        match spreadExportLoop item st false es.names with
         | .error e => .error e
         | .ok (st, exported) => if !exported then .error .spreadExportNoEffect else .ok st
 
